@@ -23,6 +23,47 @@ FIRST_MISSED = {  # first quick run of the checks as they were when the seed arr
     "C19/A": "run names that occur inside stored entries (`metadata`, `actions`, argument names), prefixes, JSON fragments",
     "C20/B": "the public `save()` (fresh and existing model directory) under fault injection at every file operation",
 }
+FIRST_MISSED_3 = {  # third round (suffixes C, D)
+    "C01/C": "exactly representable magnitude variants of the exact games in the shared campaign: x 2^-40, 2^-30, 2^20 and + 3,000,000 per member",
+    "C02/C": "same magnitude variants (the value-relative `np.isclose` snaps real intervals shut)",
+    "C02/D": "n = 9, 10: tightness oracle on the memoised computer after compute, reveal, compute, un-reveal, compute (negative-valued families)",
+    "C03/C": "one-object histories for the cached computer, judged against the reference after every compute",
+    "C04/D": "n = 9, 10 cases for the sam_apx computers",
+    "C05/D": "an IncompleteGame protocol implementation that is not the package class, with integer / float32 / Fraction bound arrays",
+    "C06/C": "the same game object evaluated again after set_value / set_values",
+    "C06/D": "games of magnitude 1e-9, 2^-40, 1e-12, 1e6 with relative comparison against the ordering average",
+    "C08/C": "n = 9 histories with the fresh-object comparison for the memoised computers",
+    "C08/D": "budget games -min(k,|S|) revealed in random orders under sam_apx_* (coalitions pinned down before they are revealed)",
+    "C09/D": "hidden games scaled by 2^-30; the oracle's normalisation guard made relative to the game's magnitude",
+    "C11/C": "sampled games that agree on everything initially known (same singletons and grand coalition)",
+    "C11/D": "a best-states run on a fixed factory game up to 9 reveals (several sizes with minimum mean gap exactly 0)",
+    "C12/C": "evaluate() through the linear wrapper (ModelInstance(linear=True)): recorded ids vs coalitions actually revealed",
+    "C13/C": "states with a step budget that the next step exhausts; trial rewards through the public step/unstep (was: harness used a private helper and crashed)",
+    "C14/C": "'latest + best' checkpointing: two directories saved in turn at every iteration, each loaded back at once",
+    "C15/C": "normalise, read values, de-normalise on ONE graph-game object",
+    "C16/C": "the observation returned by reset()/step() is held while action_masks() is called, then compared again",
+    "C16/D": "an allowed step that raises is reported as a failing input (was: harness exception)",
+    "C17/C": "multi-coalition getters called with lists, tuples, generators, iterators and filter objects",
+    "C19/D": "sequences of save() with every saver into one directory under names that differ only after their last dot",
+    "C20/C": "a model directory on another file system than the system temp directory (/dev/shm)",
+}
+WEAK_3 = {"C12/D", "C13/C", "C16/D", "C19/C", "C20/C"}
+if len(sys.argv) > 1 and sys.argv[1] == "3":
+    for d in sorted(ROOT.iterdir()):
+        for suf in ("C", "D"):
+            m = d / f"meta{suf}.json"
+            if not m.exists():
+                continue
+            meta = json.loads(m.read_text())
+            summ = re.sub(r"\s+", " ", meta.get("summary", ""))[:110].replace("|", "/")
+            log = (d / f"check{suf}.log").read_text() if (d / f"check{suf}.log").exists() else ""
+            concrete = any(l.startswith("VIOLATION") and "no-failing-input-found" not in l for l in log.splitlines())
+            any_v = "VIOLATION" in log
+            now = "caught (failing input)" if concrete else ("caught (no-failing-input-found)" if any_v else "MISSED")
+            key = f"{d.name}/{suf}"
+            first = "caught without a failing input" if key in WEAK_3 else ("missed" if key in FIRST_MISSED_3 else "caught")
+            print(f"| {key} | {summ} | {first} | {FIRST_MISSED_3.get(key, '')} | {now} |")
+    sys.exit(0)
 for d in sorted(ROOT.iterdir()):
     for suf in ("A", "B"):
         m = d / f"meta{suf}.json"
